@@ -189,6 +189,35 @@ def rule_twopass(c, prog):
             c.ok(R, inst)
         else:
             c.violation(R, f"reader|{name}", f"decode_internal: a success return is not dominated by `{name}` (after deserialize_root): forward references / shared strings would stay unresolved", fn.sp, instance=inst)
+    # every queued rewrite is visited: an entry that cannot be resolved is skipped on its own, it does not end the pass
+    TERMINATING = {"map_while", "take_while", "take", "find", "find_map", "any", "all", "position", "nth", "last", "next", "step_by", "scan", "try_for_each", "try_fold", "skip", "skip_while", "rev"}
+    for name in ("apply_referent_rewrites", "apply_shared_string_rewrites"):
+        f2 = prog.fn("rbx_xml::deserializer::" + name)
+        inst = f"reader:{name}-visits-all"
+        bad = None
+        n_it = 0
+        for n in core.walk_fn(f2):
+            if n.get("k") == "DropTemps":
+                continue
+            fl = core.as_for(n)
+            srcs = []
+            if fl is not None:
+                srcs = [fl[1]]
+                if any("Rewrite" in (y.get("ty") or "") for y in core.walk(fl[1])):
+                    n_it += 1
+                    exits = [y for y in core.walk(fl[2], into_closures=False) if y.get("k") == "Break" or (y.get("k") == "Ret" and core.as_try(y) is None and not any(core.as_try(w) is not None and any(v is y for v in core.walk(w)) for w in core.walk(fl[2])))]
+                    if exits:
+                        bad = ("the loop over the queued rewrites can `break` / `return`", core.loc(exits[0]))
+            if n.get("k") == "MethodCall" and n["m"] in TERMINATING and "Iterator" in (core.callee_generic(n) or "") and any("Rewrite" in (y.get("ty") or "") for y in core.walk(n["recv"])):
+                bad = (f"`{n['m']}` ends the walk over the queued rewrites at the first entry it rejects", core.loc(n))
+            if n.get("k") == "MethodCall" and n["m"] in ("iter", "into_iter", "drain") and "Rewrite" in (core.strip(n["recv"]).get("ty") or ""):
+                n_it += 1
+        if bad:
+            c.violation(R, f"reader|{name}|stops-early", f"{name}: {bad[0]} — one reference to an instance outside the file (a referent no <Item> declares) leaves every later reference of the file unresolved", bad[1], instance=inst)
+        elif n_it:
+            c.ok(R, inst)
+        else:
+            c.not_decided.append(f"{name}: no iteration over the queued rewrites was recognised")
     # read_ref: non-null => add_referent_rewrite
     fn = prog.fn("rbx_xml::types::referent::read_ref")
     ok = False
